@@ -184,6 +184,32 @@ func casesDeterminism(c *caseCtx) {
 				viol("concurrent", fmt.Sprintf("%s :: concurrently with other engines the search returned [%s], alone [%s]", label, res[i], ref))
 			}
 		}
+		// (6) with a hash table: setting a position up starts from an empty table, so nothing is carried
+		// over from the searches before the set-up - the answer equals that of a new engine with the same options
+		mkh := func() *engine.Engine {
+			if g%2 == 0 {
+				// the default table factory of pkg/engine (size taken from the Hash option)
+				return engine.New(ctx, "t", "t", bundledSearch(name), engine.WithOptions(engine.Options{Hash: 1}))
+			}
+			e, _ := bundledEngineSeed(ctx, name, 1, 0, 0, 0)
+			return e
+		}
+		if refH, _, okH := analyse(ctx, mkh(), f, moves, depth); okH {
+			eh := mkh()
+			_, _, _ = analyse(ctx, eh, f, moves, depth+1)
+			a, _, ok1 := analyse(ctx, eh, f, moves, depth)
+			if ok1 && a.String() != refH.String() {
+				viol("table-carried-over", fmt.Sprintf("%s hash=1 :: after a deeper search of the same game and a new set-up the engine returned [%s], a new engine [%s]", label, a, refH))
+			}
+			if ms := legalMoves(cur.pos, cur.turn); len(ms) > 0 {
+				next := append(append([]string{}, moves...), uciMove(ms[c.r.Intn(len(ms))]))
+				b1, _, ok1 := analyse(ctx, eh, f, next, depth)
+				b2, _, ok2 := analyse(ctx, mkh(), f, next, depth)
+				if ok1 && ok2 && b1.String() != b2.String() {
+					viol("table-carried-over", fmt.Sprintf("%s hash=1 next=%s :: after searching the previous position and a new set-up the engine returned [%s], a new engine [%s]", label, next[len(next)-1], b1, b2))
+				}
+			}
+		}
 		// (5) with noise on: reproducible from the seed
 		a1, _, ok1 := analyse(ctx, mk(7, 10), f, moves, depth)
 		a2, _, ok2 := analyse(ctx, mk(7, 10), f, moves, depth)
